@@ -317,6 +317,11 @@ func (x *gen) directedABA() {
 	c.exec(fmt.Sprintf("propose %d", l1.id))
 	c.exec(fmt.Sprintf("process %d", l1.id))
 	x.deliverAll()
+	if !l1.alive || l1.rn == nil {
+		c.exec("unblock")
+		c.exec("flush 5")
+		return
+	}
 	t1 := x.termOf(l1)
 	dl := l1.rn.VerifState()
 	k := l1.logView(&dl).last()
@@ -429,6 +434,9 @@ func (x *gen) directedXferJoint() {
 		return
 	}
 	c.exec("flush 4")
+	if !l.alive || l.rn == nil {
+		return
+	}
 	d := l.rn.VerifState()
 	if len(d.Config.Voters[1]) > 0 {
 		x.idle()
